@@ -24,7 +24,7 @@ class Prop(BaseProp):
             "run under explicit schedules through the guarded schedule points; after every step the result, the tracked state and a digest of the cache files are compared with the model, which is "
             "given the directory listing order and the eviction victims the implementation chose; every hit is compared with the ground truth; "
             "non-trivial = at least 4 operations; distinct by sha256 of the case text")
-    kinds = ["seq", "evict", "damage", "damage", "known", "openwhile", "conc", "capchange"]
+    kinds = ["seq", "evict", "damage", "damage", "known", "openwhile", "conc", "capchange", "race"]
     allow_known = True
 
     def streams(self, rng, tier):
